@@ -30,6 +30,8 @@ def d16_key(case, f):
 def run(res, replay=None):
     # structural tie of the searches on the distribution function (_update, _cum, quantile, _get_absorption_time, t_max): translate the CURRENT source and re-check proofs/GenSearchEquiv.v
     import translate_step; (res.proof is not None) and translate_step.run(res.proof, pid=res.pid, tie='search')
+    # structural tie of the numeric loops _accumulate / cdf (the rescaling theorems of analysis/SourceScaling.v are about them): translate the CURRENT source and re-check proofs/GenLoopsEquiv.v
+    import translate_step; (res.proof is not None) and translate_step.run(res.proof, pid=res.pid, tie='loops')
     rng = random.Random(res.seed)
     res.rule = ('scaling stream: pairs (configuration, c = 2^j) with population sizes spread over [1e-3, 1e9] (sizes '
                 '2^e, e in [-9, 29]), Kingman / Beta (scaled, time scale N^(alpha-1)) / Dirac (scaled, N^2), 1-2 demes, '
